@@ -154,6 +154,10 @@ class CGen(upp.ProblemGen):
             names += ["x", "xb", "xq", "xq", "z", "zb"]
         if self.objfl:
             names += ["at", "own"]
+        # static Boolean preconditions over parameters (what GrounderHelper prunes on): bq is never written
+        self.static_bq = ("grounder" in chain(comp)) and rng.random() < 0.6
+        if self.static_bq:
+            names = [n for n in names if n != "bq"]
         self.eff_names = names
         if not self.numeric:
             for n in ("x", "xb", "xq", "z", "zb"):
@@ -247,6 +251,11 @@ class CGen(upp.ProblemGen):
             effs.append(["eff", "assign", f, ["b", "F"], ["b", "T"], []])
             effs.append(["eff", "assign", f, ["b", "T"], self.simple_cond(params), []])
         pre = a[3][1:]
+        if self.static_bq:
+            effs = [e for e in effs if e[2][1][0] != "bq"] or effs[:0] + [["eff", "assign", ["fl", self.FL["b0"]], ["b", "T"], ["b", "T"], []]]
+            for pn, pt in params:
+                if pt[1] in ("T", "S") and r.random() < 0.8:
+                    pre.append(["fl", self.FL["bq"], ["p", pn, pt]])
         if r.random() < 0.3:
             pre.append(["not", self.fluent_exp(r.choice(["b0", "b1", "bq"]), params)])
         return ["action", a[1], params, ["pre"] + pre, ["effs"] + effs[:5]]
@@ -295,6 +304,19 @@ class CGen(upp.ProblemGen):
         if not self.numeric:
             self.invariants = False      # ProblemGen's own invariants are numeric
         ps = upp.ProblemGen.problem(self, name)
+        if self.static_bq and self.rng.random() < 0.85:
+            # a static Boolean fluent that is TRUE by default and explicitly FALSE for some objects
+            fl = [[ref, (["b", "T"] if ref[0] == "bq" else d)] for ref, d in upp.get(ps, "fluents")]
+            init = [i for i in upp.get(ps, "init") if i[0][1][0] != "bq"]
+            objty = dict(map(tuple, self.OBJECTS))
+            for o in ("t1", "s1", "s2"):
+                if self.rng.random() < 0.35:
+                    init.append([["fl", self.FL["bq"], ["o", o, objty[o]]], ["b", "F"]])
+            for j, sec in enumerate(ps):
+                if isinstance(sec, list) and sec and sec[0] == "fluents":
+                    ps[j] = ["fluents"] + fl
+                elif isinstance(sec, list) and sec and sec[0] == "init":
+                    ps[j] = ["init"] + init
         for j, sec in enumerate(ps):
             if isinstance(sec, list) and sec and sec[0] == "traj":
                 tr = sec[1:]
@@ -1032,52 +1054,117 @@ def chain(comp):
     return out
 
 
-def _actions(ps):
-    return upp.get(ps, "actions")
+def fired_effects(P, state, action, params):
+    """the effect instances of (action, params) that fire in `state`, everything evaluated in that state:
+    [(kind, ground fluent FNode, value FNode, condition FNode of the lifted effect)]; None if some evaluation fails"""
+    se = StateEvaluator(P)
+    subs = dict(zip(action.parameters, params))
+    out = []
+    try:
+        for e0 in action.effects:
+            for e in e0.expand_effect(P):
+                c = e.condition.substitute(subs)
+                if not se.evaluate(c, state).is_true():
+                    continue
+                f = e.fluent.substitute(subs)
+                em = P.environment.expression_manager
+                gf = em.FluentExp(f.fluent(), tuple(se.evaluate(a, state) for a in f.args))
+                v = se.evaluate(e.value.substitute(subs), state)
+                out.append(("assign" if e.is_assignment() else "incdec", gf, v, e0.condition))
+    except Exception:
+        return None
+    return out
 
 
-def _same_fluent_assignments(ps, pred):
-    """some action has two assignment effects to one fluent symbol `pred` accepts, with syntactically different
-    values or with a value that is not a constant"""
-    for a in _actions(ps):
-        effs = [e for e in a[4][1:] if e[1] == "assign" and pred(e[2][1])]
-        for i in range(len(effs)):
-            for j in range(i + 1, len(effs)):
-                if effs[i][2][1] == effs[j][2][1]:
-                    vi, vj = effs[i][3], effs[j][3]
-                    if vi != vj or vi[0] not in ("b", "i", "r", "o"):
-                        return True
+def _steps(ex, ikeys):
+    """(state, action, params) along an instance-key sequence on an explorer, as far as it applies (the first
+    inapplicable step is included with its pre-state)"""
+    if ex.init is None:
+        return
+    k = ex.init
+    for ik in ikeys:
+        i = ex.by_key.get(ik)
+        if i is None:
+            return
+        a, ps = ex.instances[i]
+        yield ex.states[k], a, ps
+        nxt = [k2 for j, k2 in ex.expand(k) if j == i]
+        if not nxt:
+            return
+        k = nxt[0]
+
+
+def _witness_steps(payload, which):
+    """the steps of the failing ORIGINAL plan of a case: the mapped-back plan of the C06 witness / the uncovered plan
+    of the C07 witness"""
+    an = analyse(payload)
+    if which == "c06" and getattr(an, "c06_witness", None):
+        plan = an.c06_witness[1]
+    elif which == "c07" and getattr(an, "c07_witness", None):
+        plan = an.c07_witness
+    else:
+        return []
+    P, _ = upp.build_problem(payload[3])
+    ex = Explorer(P)
+    return [(P, st, a, ps) for st, a, ps in _steps(ex, plan)]
+
+
+def _some_step(payload, pred):
+    for which in ("c06", "c07"):
+        for P, st, a, ps in _witness_steps(payload, which):
+            fe = fired_effects(P, st, a, ps)
+            if fe is not None and pred(P, fe):
+                return True
     return False
+
+
+def _multi_assign(kind_of_fluent, different):
+    """some ground fluent of the given kind is assigned by >= 2 fired effects (with different values / any values)"""
+    def pred(P, fe):
+        seen = {}
+        for k, gf, v, _ in fe:
+            if k != "assign" or not kind_of_fluent(gf.fluent().type):
+                continue
+            seen.setdefault(str(gf), []).append(str(v))
+        for vs in seen.values():
+            if len(vs) >= 2 and (not different or len(set(vs)) >= 2):
+                return True
+        return False
+    return pred
 
 
 def cause_overlapping_disjuncts(payload):
-    """D-C06b: a conditional increase/decrease whose condition has a DNF with >= 2 disjuncts"""
+    """D-C06b: in the failing original plan a conditional increase/decrease fires whose condition has a DNF with >= 2
+    disjuncts (DisjunctiveConditionsRemover splits it into one effect per disjunct; overlapping disjuncts fire twice)"""
     if "dcr" not in chain(payload[1]):
         return False
     from unified_planning.model.walkers import Dnf
-    P, _ = upp.build_problem(payload[3])
-    if "qr" in chain(payload[1]):
-        # the disjunction may come out of an expanded Exists
-        P = make_compiler("qr").compile(P).problem
-    d = Dnf(P.environment)
-    for a in P.actions:
-        for e in a.effects:
-            if e.is_conditional() and not e.is_assignment():
-                if d.get_dnf_expression(e.condition).simplify().is_or():
+
+    def pred(P, fe):
+        d = Dnf(P.environment)
+        qr = None
+        for k, gf, v, cond in fe:
+            if k == "incdec" and not cond.is_true():
+                c = cond
+                if "qr" in chain(payload[1]):
+                    from unified_planning.model.walkers import ExpressionQuantifiersRemover
+                    c = ExpressionQuantifiersRemover(P.environment).remove_quantifiers(c, P)
+                if d.get_dnf_expression(c).simplify().is_or():
                     return True
-    return False
+        return False
+    return _some_step(payload, pred)
 
 
 def cause_bool_add_and_delete(payload):
-    """D-C06c: NegativeConditionsRemover on an action that assigns one Boolean fluent by two effects (add-after-delete
-    gives `f` and its complementary fluent the same value)"""
-    return "ncr" in chain(payload[1]) and _same_fluent_assignments(payload[3], lambda ref: ref[1] == "bool")
+    """D-C06c: NegativeConditionsRemover, and some step of the failing original plan assigns one Boolean ground fluent
+    both values (add-after-delete: `f` and its complementary fluent both end true)"""
+    return "ncr" in chain(payload[1]) and _some_step(payload, _multi_assign(lambda t: t.is_bool_type(), True))
 
 
 def cause_object_fluent_conflict(payload):
-    """D-C06d: UsertypeFluentsRemover on an action that assigns one object fluent by two effects"""
-    return "utf" in chain(payload[1]) and _same_fluent_assignments(
-        payload[3], lambda ref: isinstance(ref[1], list) and ref[1][0] == "user")
+    """D-C06d: UsertypeFluentsRemover, and some step of the failing original plan assigns two different objects to one
+    object fluent (a conflict in the original, Boolean add-after-delete in the compiled problem)"""
+    return "utf" in chain(payload[1]) and _some_step(payload, _multi_assign(lambda t: t.is_user_type(), True))
 
 
 def cause_undefined_conditional(payload):
@@ -1092,7 +1179,7 @@ def cause_undefined_conditional(payload):
             undef.add(ref[0])
     if not undef:
         return False
-    for a in _actions(ps):
+    for a in upp.get(ps, "actions"):
         for e in a[4][1:]:
             if e[4] != ["b", "T"]:
                 names = {r[0] for r in upx.free_names(["and", e[2], e[3]])["fl"]}
@@ -1102,10 +1189,11 @@ def cause_undefined_conditional(payload):
 
 
 def cause_coinciding_values(payload):
-    """D-C07b: two assignments to one non-Boolean fluent in one action: statically conflicting effects make the
-    grounder / the conditional-effects remover drop the instance, although the values may coincide at run time"""
+    """D-C07b: some step of the uncovered original plan assigns one non-Boolean ground fluent by >= 2 fired effects
+    (necessarily the same value): the effects conflict statically, so the grounder / the conditional-effects remover
+    dropped the instance / variant"""
     ch = chain(payload[1])
-    return ("grounder" in ch or "cer" in ch) and _same_fluent_assignments(payload[3], lambda ref: ref[1] != "bool")
+    return ("grounder" in ch or "cer" in ch) and _some_step(payload, _multi_assign(lambda t: not t.is_bool_type(), False))
 
 
 def cause_noop_step(payload):
